@@ -1,6 +1,6 @@
 """Checks on loaded zones: C01, C02, C03, C06, C10, C11, C14."""
 import bisect, concurrent.futures
-from .common import (Check, canon, ub_site, enclosing_function, run_model, run_lines, I64MIN, I64MAX, NCPU, log)
+from .common import (align_zone_lines, Check, canon, ub_site, enclosing_function, run_model, run_lines, I64MIN, I64MAX, NCPU, log)
 from . import civil as C
 from . import zones as Z
 from . import tzif as T
@@ -44,7 +44,9 @@ def run_blocks(chk, exe, blocks, label):
         for bi in g:
             starts.append(len(lines)); lines.extend(blocks[bi])
         if not lines: return [], []
-        return run_model(lines), run_lines(exe, lines, block_starts=starts)
+        m, i = run_model(lines), run_lines(exe, lines, block_starts=starts)
+        align_zone_lines(m, i)
+        return m, i
     mo = [None] * len(blocks); io = [None] * len(blocks)
     with concurrent.futures.ThreadPoolExecutor(max_workers=len(groups)) as ex:
         for g, (m, i) in zip(groups, ex.map(work, groups)):
